@@ -13,6 +13,7 @@ type Parser struct {
 	didEndStatement bool
 	inFunction      bool
 	inLoop          bool
+	lexErr          error
 }
 
 type parseRule struct {
@@ -107,6 +108,9 @@ func (p *Parser) error(pos int, msg string) SyntaxError {
 func (p *Parser) advance() (Token, error) {
 	t, err := p.lexer.Next()
 	if err != nil {
+		if p.lexErr == nil {
+			p.lexErr = err
+		}
 		return t, err
 	}
 	p.previous = p.current
@@ -966,7 +970,26 @@ func (p *Parser) parseFunction() (ExprFunction, error) {
 	}, nil
 }
 
+// the lexer runs one token ahead of the parser, so when it has failed every
+// token before the failure was accepted: report the lexical error itself, not
+// whatever the parser made of the tokens around it
 func (p *Parser) ParseExpression() (Expr, error) {
+	expr, err := p.parseExpression()
+	if p.lexErr != nil {
+		return nil, p.lexErr
+	}
+	return expr, err
+}
+
+func (p *Parser) Parse() (Program, error) {
+	prog, err := p.parseProgram()
+	if p.lexErr != nil {
+		return prog, p.lexErr
+	}
+	return prog, err
+}
+
+func (p *Parser) parseExpression() (Expr, error) {
 	if _, err := p.advance(); err != nil {
 		return nil, err
 	}
@@ -980,7 +1003,7 @@ func (p *Parser) ParseExpression() (Expr, error) {
 	return expr, nil
 }
 
-func (p *Parser) Parse() (Program, error) {
+func (p *Parser) parseProgram() (Program, error) {
 	prog := Program{}
 	rules := make([]Rule, 0)
 	functions := make([]ExprFunction, 0)
